@@ -491,7 +491,8 @@ impl HashCtx {
 
         // swarm configuration
         let max_handles = rng.range(1, 4) as usize;
-        let max_steps = if tier == Tier::Thorough && rng.chance(1, 10) { rng.range(20, 80) } else { rng.range(3, 40) } as usize;
+        // one run in 300 is a long history (several hundred calls on the same objects)
+        let max_steps = if rng.chance(1, 300) { rng.range(300, 700) } else if tier == Tier::Thorough && rng.chance(1, 10) { rng.range(20, 80) } else { rng.range(3, 40) } as usize;
         let mut w = [10u32, 10, 0, 0, 0, 0, 0, 0, 0];
         // misuse-injecting configuration (BLAKE2 only, a quarter of the runs): a refused call now and then, history goes on
         if var.max_key > 0 && rng.chance(1, 4) {
